@@ -347,8 +347,30 @@ pub fn epilogue_reclaim(w: &mut World, cfg: &Cfg, order: u64) {
     if order % 2 == 1 {
         drop_l(w);
     }
-    drain(w, cfg);
+    if (order / 4) % 3 == 2 {
+        blackhole(w, cfg, (order / 12) % 3);
+    } else {
+        drain(w, cfg);
+    }
     w.apply(Op::Stat);
+}
+
+/// The other way a network goes quiet: after `free` loss-free rounds every packet is lost, for ever.
+/// `6 * reclaim_bound` rounds after the last handle was closed the tables must be empty all the same
+/// (the second disjunct of the reclamation oracle): every timer of an application-closed socket has to
+/// expire without help from the peer.
+pub fn blackhole(w: &mut World, cfg: &Cfg, free: u64) {
+    for i in 0..(6 * reclaim_bound(cfg) + 2) {
+        w.apply(Op::Egress);
+        let ids: Vec<u64> = w.wire.iter().map(|p| p.id).collect();
+        for id in ids {
+            if (i as u64) < free {
+                w.apply(Op::Deliver { id });
+            } else {
+                w.apply(Op::Drop { id });
+            }
+        }
+    }
 }
 
 /// Bound on egress rounds after which every entry of a fully closed connection must be gone
